@@ -3,7 +3,10 @@ from bounded import gen
 from checks.e2e_common import run_e2e_property
 
 EXPLANATION = (
-    "B tier (bounded): programs with consumed / unconsumed names, aliases, constant, arithmetic, decider, merge, bundle "
+    "P tier: EntityPlacer.create_output_anchors creates exactly the anchors the alias bookkeeping asks for — one per alias "
+    "(minus the name a constant's own combinator already carries), else one for the entry's label — each an empty constant "
+    "combinator labelled with the alias and wired as a sink of the signal (names range over a 3-name alphabet: finite "
+    "abstraction, names matter only up to equality). B tier (bounded): programs with consumed / unconsumed names, aliases, constant, arithmetic, decider, merge, bundle "
     "and function-return producers are compiled by the real pipeline; every S3 output name must have its anchor (or "
     "labelled constant) in the decoded blueprint and the anchor network must carry exactly the S3 value (SMT, all inputs)."
 )
@@ -12,4 +15,5 @@ EXPLANATION = (
 def run(tier):
     progs = gen.c20_scope(tier)
     return run_e2e_property("C20", tier, EXPLANATION, "DESIGN §4 C20",
-                            [("e2e-named-results", progs, "named results of every producer kind, aliases, consumed names")])
+                            [("e2e-named-results", progs, "named results of every producer kind, aliases, consumed names")],
+                            contract_modules=["contracts.c20"])
